@@ -650,3 +650,214 @@ def worker_correspondence(chk, n):
                              {"events": mo, "sends": m["sends"], "left": m["left"]},
                              {"events": evs, "sends": sent, "left": left})
         yield scripts, stop, limit, evs, sent, left
+
+
+# ---------------------------------------------------------------------------------------------------------------
+# F. the stateful phase: the suite loop (thread side) and the consumer, each driven against the Lean model
+# ---------------------------------------------------------------------------------------------------------------
+
+STATEFUL_RAW = {
+    "openapi": "3.0.2", "info": {"title": "t", "version": "1"},
+    "paths": {
+        "/users": {"post": {"operationId": "createUser", "responses": {"201": {"description": "ok", "links": {
+            "get": {"operationId": "getUser", "parameters": {"id": "$response.body#/id"}}}}}}},
+        "/users/{id}": {"get": {"operationId": "getUser", "parameters": [
+            {"name": "id", "in": "path", "required": True, "schema": {"type": "integer"}}],
+            "responses": {"200": {"description": "ok"}}}}},
+}
+
+ENDINGS = ["ok", "keyboardInterrupt", "skipTest", "failureGroup", "flaky", "otherException"]
+
+
+def canon_stateful(evs):
+    ids, suites, out = {}, {}, []
+    for e in evs:
+        k = ev_kind(e)
+        if k == "SuiteStarted":
+            suites.setdefault(e.id, len(suites))
+            out.append({"k": "suiteStarted", "n": suites[e.id]})
+        elif k == "SuiteFinished":
+            suites.setdefault(e.id, len(suites))
+            out.append({"k": "suiteFinished", "n": suites[e.id], "st": STATUS[e.status]})
+        elif k == "ScenarioStarted":
+            ids.setdefault(e.id, len(ids) + 1)
+            out.append({"k": "scenStarted", "id": ids[e.id]})
+        elif k == "ScenarioFinished":
+            ids.setdefault(e.id, len(ids) + 1)
+            out.append({"k": "scenFinished", "id": ids[e.id], "st": STATUS[e.status]})
+        elif k == "NonFatalError":
+            out.append({"k": "nonFatal"})
+        elif k == "Interrupted":
+            out.append({"k": "interrupted"})
+        elif k == "PhaseFinished":
+            from schemathesis.engine.phases import PhaseSkipReason
+            out.append({"k": "phaseFinished", "st": STATUS[e.status],
+                        "ntt": e.phase.skip_reason == PhaseSkipReason.NOTHING_TO_TEST})
+        else:
+            out.append({"k": k})
+    return out
+
+
+def drive_stateful_thread(suites, max_failures=None):
+    """real `execute_state_machine_loop` with a scripted state machine class; returns the canonical events it put"""
+    import unittest
+    import hypothesis.errors
+    from schemathesis.core.failures import Failure, FailureGroup
+    from schemathesis.engine.phases.stateful._executor import execute_state_machine_loop
+    schema = load_schema("http://127.0.0.1:9", raw=STATEFUL_RAW)
+    ctx = make_ctx(schema, max_failures)
+    q: queue.Queue = queue.Queue()
+    script = list(suites)
+    counter = [0]
+
+    class FakeSM:
+        @classmethod
+        def run(cls, settings=None):
+            s = script.pop(0)
+            for st in s["scen_statuses"]:
+                started = events.ScenarioStarted(label=None, phase=PhaseName.STATEFUL_TESTING, suite_id=uuid.uuid4())
+                q.put(started)
+                q.put(events.ScenarioFinished(id=started.id, suite_id=started.suite_id, phase=PhaseName.STATEFUL_TESTING,
+                                              label=None, status=Status(st), recorder=ScenarioRecorder(label="s"),
+                                              elapsed_time=0.0, skip_reason=None, is_final=False))
+            nxt = script[0] if script else None
+            if nxt is not None and nxt.get("interruptedAtStart"):
+                ctx.stop()      # seen by the *next* iteration right after its SuiteStarted
+            e = s["ending"]
+            if s.get("limitReached"):
+                ctx.control.has_reached_the_failure_limit = True
+            if e == "ok":
+                return
+            if e == "keyboardInterrupt":
+                raise KeyboardInterrupt
+            if e == "skipTest":
+                raise unittest.SkipTest("no examples")
+            if e == "failureGroup":
+                counter[0] += 1
+                raise FailureGroup([Failure(operation="GET /x", title="t", message=f"m{counter[0]}")])
+            if e == "flaky":
+                raise hypothesis.errors.Flaky("flaky")
+            raise RuntimeError("internal")
+
+    if suites and suites[0].get("interruptedAtStart"):
+        ctx.stop()
+    execute_state_machine_loop(state_machine=FakeSM, event_queue=q, engine=ctx)
+    evs = []
+    while not q.empty():
+        evs.append(q.get_nowait())
+    return canon_stateful(evs)
+
+
+def gen_suites(rng):
+    out = []
+    for i in range(rng.randint(1, 4)):
+        out.append({"scen_statuses": [rng.choice(["success", "failure", "skip", "error"]) for _ in range(rng.randint(0, 3))],
+                    "ending": rng.choice(ENDINGS), "interruptedAtStart": (i > 0 and rng.random() < 0.08) or (i == 0 and rng.random() < 0.04),
+                    "limitReached": rng.random() < 0.25})
+    # the loop continues after a failed suite: always script one more run that ends normally
+    out.append({"scen_statuses": [], "ending": "ok", "interruptedAtStart": False, "limitReached": False})
+    return out
+
+
+def stateful_thread_correspondence(chk, n):
+    from harness.core import Driver
+    drv = Driver("Engine")
+    rng = chk.rng
+    runs, reqs = [], []
+    for _ in range(n):
+        suites = gen_suites(rng)
+        real = drive_stateful_thread(suites)
+        msuites, sid = [], 0
+        for s in suites:
+            scen = []
+            for st in s["scen_statuses"]:
+                sid += 1
+                scen += [{"k": "scenStarted", "id": sid}, {"k": "scenFinished", "id": sid, "st": st}]
+            msuites.append({"scen": scen, "ending": s["ending"], "interruptedAtStart": s["interruptedAtStart"],
+                            "limitReached": s["limitReached"]})
+        runs.append((suites, real))
+        reqs.append(("stateful_thread", {"suites": msuites}))
+    for (suites, real), m in zip(runs, drv.batch(reqs)):
+        # the model numbers scenario ids over all scripted suites; renumber by appearance like the real stream
+        ren, mo = {}, []
+        for e in m:
+            if "id" in e:
+                ren.setdefault(e["id"], len(ren) + 1)
+                e = {**e, "id": ren[e["id"]]}
+            mo.append(e)
+        chk.case("stateful-thread:execute_state_machine_loop", key=suites, sample={"suites": suites, "events": real})
+        for s in suites:
+            chk.feature(f"stateful-ending:{s['ending']}")
+        if mo != real:
+            chk.disagreement("stateful-thread:execute_state_machine_loop", suites, mo, real)
+        yield suites, real
+
+
+def stateful_consumer_correspondence(chk, n):
+    """real `stateful.execute` with the thread body replaced by a scripted producer"""
+    from harness.core import Driver
+    from schemathesis.engine.phases import stateful as stateful_phase
+    from schemathesis.engine.phases.stateful import _executor as st_exec
+    drv = Driver("Engine")
+    rng = chk.rng
+    schema = load_schema("http://127.0.0.1:9", raw=STATEFUL_RAW)
+    runs, reqs = [], []
+    for _ in range(n):
+        gets = []
+        for k in range(rng.randint(0, 3)):
+            gets.append({"k": "suiteStarted", "n": k})
+            for i in range(rng.randint(0, 2)):
+                gets += [{"k": "scenStarted", "id": 10 * k + i + 1},
+                         {"k": "scenFinished", "id": 10 * k + i + 1, "st": rng.choice(["success", "failure", "error"])}]
+            if rng.random() < 0.2:
+                gets.append({"k": "nonFatal"})
+            gets.append({"k": "suiteFinished", "n": k, "st": rng.choice(["success", "failure", "error", "skip", "interrupted"])})
+        suite_ids = {}
+        scen_ids = {}
+
+        def real_ev(e):
+            k = e["k"]
+            if k == "suiteStarted":
+                ev = events.SuiteStarted(phase=PhaseName.STATEFUL_TESTING)
+                suite_ids[e["n"]] = ev.id
+                return ev
+            if k == "suiteFinished":
+                return events.SuiteFinished(id=suite_ids.get(e["n"], uuid.uuid4()), phase=PhaseName.STATEFUL_TESTING,
+                                            status=Status(e["st"]))
+            if k == "scenStarted":
+                ev = events.ScenarioStarted(label=None, phase=PhaseName.STATEFUL_TESTING, suite_id=uuid.uuid4())
+                scen_ids[e["id"]] = ev.id
+                return ev
+            if k == "scenFinished":
+                return events.ScenarioFinished(id=scen_ids[e["id"]], suite_id=uuid.uuid4(), phase=PhaseName.STATEFUL_TESTING,
+                                               label=None, status=Status(e["st"]), recorder=ScenarioRecorder(label="s"),
+                                               elapsed_time=0.0, skip_reason=None, is_final=False)
+            return events.NonFatalError(error=RuntimeError("x"), phase=PhaseName.STATEFUL_TESTING, label="Stateful tests",
+                                        related_to_operation=False)
+
+        def producer(*, state_machine, event_queue, engine):
+            for e in gets:
+                event_queue.put(real_ev(e))
+                if rng.random() < 0.3:
+                    time_sleep(0.012)
+
+        import time as _t
+        time_sleep = _t.sleep
+        ctx = make_ctx(schema)
+        phase = Phase(name=PhaseName.STATEFUL_TESTING, is_supported=True, is_enabled=True)
+        with mock.patch.object(st_exec, "execute_state_machine_loop", producer):
+            out = list(stateful_phase.execute(ctx, phase))
+        runs.append((gets, canon_stateful(out)))
+        reqs.append(("stateful_consume", {"gets": gets, "ki": False}))
+    for (gets, real), m in zip(runs, drv.batch(reqs)):
+        # scenario ids: model keeps the scripted ids, the real stream numbers by appearance
+        ren, mo = {}, []
+        for e in m:
+            if "id" in e:
+                ren.setdefault(e["id"], len(ren) + 1)
+                e = {**e, "id": ren[e["id"]]}
+            mo.append(e)
+        chk.case("stateful-consumer:stateful.execute", key=gets, nontrivial=bool(gets), sample={"gets": gets, "stream": real})
+        if mo != real:
+            chk.disagreement("stateful-consumer:stateful.execute", gets, mo, real)
+        yield gets, real
